@@ -108,6 +108,7 @@ fn eval_map(f: &MapFn, v: Val) -> Val {
             v => v,
         },
         MapFn::Dup => Val::pair(v.clone(), v),
+        MapFn::Track => Val::pair(Val::Tr(Tracker::new()), v),
     }
 }
 
